@@ -271,33 +271,18 @@ def _check_flags(repo, rep):
 
 
 def _check_segments(repo, rep):
-    """One iteration of the segment loop of _arc_to_cubic, interpreted for a symbolic segment index i of n: the yielded
-    control points and end point equal the tangent construction on the unit circle at angles theta1 + i*theta_arc/n and
-    theta1 + (i+1)*theta_arc/n, mapped by translate(center) o rotate(phi) o scale(rx, ry); the last segment ends at the
-    arc's own end point.  (Consecutive segments join because the end angle of i is the start angle of i+1.)"""
-    import copy as _copy
-    from sa.sym import Closure
+    """_arc_to_cubic interpreted with the number of segments fixed at three (the `ceil` that produces the count is answered with 3; the
+    angles stay symbolic): segment i has the control points of the tangent construction on the unit circle at the angles
+    theta1 + i*theta_arc/3 and theta1 + (i+1)*theta_arc/3, mapped by translate(centre) o rotate(phi) o scale(rx, ry) with the *corrected*
+    radii; consecutive segments join; the last one ends at the arc's own end point.  However the loop is written."""
     A = repo["arc_to_cubic"]
     fn = A.func("_arc_to_cubic")
     F = "arc_to_cubic._arc_to_cubic"
     rep.saw(F)
-    loops = [l for l in fn.body if isinstance(l, ast.For)]
-    if len(loops) != 1 or not (isinstance(loops[0].iter, ast.Call) and call_name(loops[0].iter) == "range" and len(loops[0].iter.args) == 1
-                              and isinstance(loops[0].iter.args[0], ast.Name) and isinstance(loops[0].target, ast.Name)):
-        raise AnalysisError("_arc_to_cubic: the segment loop `for <i> in range(<n>)` was not found at the top level of the function")
-    loop = loops[0]
-    nvar, ivar = loop.iter.args[0].id, loop.target.id
-    src = ast.parse(unparse(fn)).body[0]
-    k = [n for n, st in enumerate(src.body) if isinstance(st, ast.For)][0]
-    seg = _copy.deepcopy(src)
-    seg.name = "_one_segment"
-    seg.args.args = seg.args.args + [ast.arg(arg="__i"), ast.arg(arg="__n")]
-    seg.body = src.body[:k] + ast.parse(f"{nvar} = __n\n{ivar} = __i").body + src.body[k].body
-    ast.fix_missing_locations(seg)
-    clo = Closure(A, seg, None, "_one_segment")
+    clo = closure_of(repo, "arc_to_cubic", "_arc_to_cubic")
     params = Rec(ClassRef("arc_to_cubic", "CenterParametrization"), {"theta1": S("t1"), "theta_arc": S("ta"), "center_point": P2("c")})
-
     receivers = []
+    N_SEG = 3
 
     def setup(it):
         def corrected(i, a, k):
@@ -310,11 +295,11 @@ def _check_segments(repo, rep):
             return params
         it.hooks[("arc_to_cubic", "EllipticalArc.correct_out_of_range_radii")] = corrected
         it.hooks[("arc_to_cubic", "EllipticalArc.end_to_center_parametrization")] = parametrize
+        it.external["math.ceil"] = lambda i, a, k: N_SEG
+        prev = it.auto_decide
+        it.auto_decide = lambda c: (True if "isfinite" in repr(c) and getattr(c, "op", "") != "not" else (prev(c) if prev else None))
 
-    outs = _und(explore(repo, clo, [], fresh_args=lambda: ([ARC(), S("i"), S("n")], {}), setup=setup, max_paths=64), F)
-    s_, e_ = S("t1") + S("i") * S("ta") / S("n"), S("t1") + (S("i") + 1) * S("ta") / S("n")
-    t = fn_atom("tan", (e_ - s_) * RF.of(1) / 4) * RF.of(4) / 3
-    cs, sn, ce, se = fn_atom("cos", s_), fn_atom("sin", s_), fn_atom("cos", e_), fn_atom("sin", e_)
+    outs = _und(explore(repo, clo, [], fresh_args=lambda: ([ARC()], {}), setup=setup, max_paths=64), F)
     phi = fn_atom("radians", S("rot"))
     cp, sp = fn_atom("cos", phi), fn_atom("sin", phi)
 
@@ -322,46 +307,45 @@ def _check_segments(repo, rep):
         x, y = x * S("rxc"), y * S("ryc")
         return (cp * x - sp * y + S("cx"), sp * x + cp * y + S("cy"))
 
-    want1, want2, wante = T(cs - t * sn, sn + t * cs), T(ce + t * se, se - t * ce), T(ce, se)
-    seen_last = seen_mid = False
     bad = None
+    n_checked = 0
     for o in outs:
         if o.raised:
             bad = f"raises {o.raised}"
             continue
         segs = list(o.value) if o.value is not None else []
-        if not segs:
-            # `not isfinite(t)`: the documented bail-out for a degenerate tangent
-            if any("isfinite" in repr(c) for c, _ in o.decisions):
-                continue
-            bad = "an iteration yields no segment"
+        if len(segs) != N_SEG:
+            if not segs and any("isfinite" in repr(c) for c, _ in o.decisions):
+                continue  # the documented bail-out for a degenerate tangent
+            bad = f"{len(segs)} segments are produced for a segment count of {N_SEG}"
             continue
-        p1, p2, endp = segs[0]
         eq = o.equalities() if hasattr(o, "equalities") else {}
-        last = any(v and ("i" in repr(c) and "n" in repr(c) and "==" in repr(c)) for c, v in o.decisions)
 
         def same_pt(p, w, eq=eq):
             from sa.rules.c11 import same
             return same((to_rf(p.f["x"]), to_rf(p.f["y"])), w, eq)
-        if last:
-            seen_last = True
-            if not (repr(endp.f["x"]) == "ex" and repr(endp.f["y"]) == "ey"):
-                bad = f"the last segment ends at {endp}; it must end exactly at the arc's end point"
-            continue  # with i = n - 1 substituted the control points are the same formulas; checked on the general path
-        seen_mid = True
-        if not same_pt(p1, want1) or not same_pt(p2, want2):
-            bad = f"control points of segment i are {p1}, {p2}; the tangent construction P(s) + t T(s), P(e) - t T(e) with t = 4/3 tan((e-s)/4), mapped to user space, is expected"
-        elif not same_pt(endp, wante):
-            bad = f"segment i ends at {endp}; the point of the ellipse at angle theta1 + (i+1) theta_arc / n is expected"
+        for i, (p1, p2, endp) in enumerate(segs):
+            s_, e_ = S("t1") + RF.of(i) * S("ta") / N_SEG, S("t1") + RF.of(i + 1) * S("ta") / N_SEG
+            t = fn_atom("tan", (e_ - s_) * RF.of(1) / 4) * RF.of(4) / 3
+            cs, sn, ce, se = fn_atom("cos", s_), fn_atom("sin", s_), fn_atom("cos", e_), fn_atom("sin", e_)
+            want1, want2, wante = T(cs - t * sn, sn + t * cs), T(ce + t * se, se - t * ce), T(ce, se)
+            n_checked += 1
+            if not same_pt(p1, want1) or not same_pt(p2, want2):
+                bad = f"control points of segment {i} of {N_SEG} are {p1}, {p2}; the tangent construction P(s) + t T(s), P(e) - t T(e) with t = 4/3 tan((e-s)/4), mapped to user space with the corrected radii, is expected"
+            if i == N_SEG - 1:
+                if not (repr(endp.f["x"]) == "ex" and repr(endp.f["y"]) == "ey"):
+                    bad = f"the last segment ends at {endp}; it must end exactly at the arc's end point"
+            elif not same_pt(endp, wante):
+                bad = f"segment {i} of {N_SEG} ends at {endp}; the point of the ellipse at angle theta1 + {i + 1}/{N_SEG} theta_arc is expected"
     if not receivers or any(r != ("rxc", "ryc") for r in receivers):
         rep.fail("R-POLY.radii-correction", F, "centre parametrisation of the corrected arc",
                  f"the centre parametrisation is computed for radii {sorted(set(receivers)) or 'never'}; it must run on the arc returned by the radius correction", A, fn)
     else:
         rep.ok("R-POLY.radii-correction", F + ": the centre parametrisation and the final scale use the corrected radii", "", True)
-    if bad or not (seen_last and seen_mid):
-        rep.fail("R-POLY.arc-segments", F, "one iteration of the segment loop", (bad or "the loop does not distinguish the last segment (which must end exactly at the arc's end point)")[:600], A, loop)
+    if bad or not n_checked:
+        rep.fail("R-POLY.arc-segments", F, "the segments of an arc split in three", (bad or "no path produces the three segments")[:600], A, fn)
     else:
-        rep.ok("R-POLY.arc-segments", F, "segment i of n: P1 = T(P(s_i) + t T'(s_i)), P2 = T(P(e_i) - t T'(e_i)), end = T(P(e_i)) with e_i = s_{i+1}, T = translate(center) o rotate(phi) o scale(rx, ry); "
+        rep.ok("R-POLY.arc-segments", F, "3 segments: P1 = T(P(s_i) + t T'(s_i)), P2 = T(P(e_i) - t T'(e_i)), end = T(P(e_i)) with e_i = s_{i+1}, T = translate(center) o rotate(phi) o scale(rx, ry); "
                                          "last segment ends at the arc's own end point (rational-function identities)", True)
 
 
